@@ -94,6 +94,15 @@ violate the property they were written for, but only in a process that has compu
 which no year-sharded sweep does; they are detected by C09 (whose statement — results do not depend on call
 history — they violate first), and `seeds_all.sh` records that mapping.
 
+Round 9 (20 changes; the agents were told everything above and that caches are covered, and asked for faults in the
+rule or arithmetic itself, loosely constrained values, weak oracles and rare interactions): 4 caught as-is, 14 after
+the additions listed in section 0.1 ("Round 9"), and 2 that the machinery cannot decide because they change the
+astronomy by less than the independent oracle resolves (`seeded_undecided/README.md`). Typical causes of the misses:
+an oracle weaker than the text (a full string checked for shape, term names for non-emptiness), an argument or range
+end one past what the alphabet contained (120,001 months, year 9999, 63 month-separated steps), a moment inside the
+minute of a term, a rounding tie that exists on four days of the whole range, special `time.Time` values, and the
+process time zone.
+
 ### 10.2 Hand-written overlay mutants (`selftest.py`, results in `selftest.json`)
 
 %d mutants (1–3 per property, listed with their intent in `selftest.py`) are applied through the build
